@@ -29,6 +29,9 @@ struct Mixed
 struct Trivial
 {
 };
+struct Integral
+{
+};
 struct Copyable
 {
 };
@@ -85,6 +88,14 @@ struct Values<Trivial>
     static Y y(int i) { return static_cast<Y>(i); }
 };
 template <>
+struct Values<Integral>  // only memcmp-compatible value types: the whole-buffer comparison paths are instantiated
+{
+    using X = std::uint32_t;
+    using Y = std::uint8_t;
+    static X x(int i) { return static_cast<X>(i); }
+    static Y y(int i) { return static_cast<Y>(i); }
+};
+template <>
 struct Values<Copyable>
 {
     using X = std::string;
@@ -122,10 +133,30 @@ struct Opts<Stateful>
 template <class T, bool Aligned, std::size_t A>
 using MaybeAligned = std::conditional_t<Aligned, cntgs::AlignAs<T, A>, T>;
 
+template <class A>
+struct OtherAlloc;
+template <>
+struct OtherAlloc<StdAlloc>
+{
+    using type = Pmr;
+};
+template <>
+struct OtherAlloc<Pmr>
+{
+    using type = Stateful;
+};
+template <>
+struct OtherAlloc<Stateful>
+{
+    using type = StdAlloc;
+};
+
 template <class CatTag, class ValTag, bool Aligned, class AllocTag>
 struct Cfg
 {
     using Cat = CatTag;
+    // the same parameter list with another kind of allocator (comparisons across allocator kinds)
+    using Other = Cfg<CatTag, ValTag, Aligned, typename OtherAlloc<AllocTag>::type>;
     using Val = Values<ValTag>;
     using X = typename Val::X;
     using Y = typename Val::Y;
@@ -314,6 +345,25 @@ void op_lt()
     (void)(v >= w);
     (void)(v[0] < w[1]);
     (void)(v[0] >= std::as_const(w)[1]);
+}
+template <class C>
+void op_eqOtherAlloc()
+{
+    auto v = C::filled();
+    auto w = C::Other::filled();
+    (void)(v == w);
+    (void)(v != w);
+    (void)(w == v);
+}
+template <class C>
+void op_ltOtherAlloc()
+{
+    auto v = C::filled();
+    auto w = C::Other::filled();
+    (void)(v < w);
+    (void)(v <= w);
+    (void)(v > w);
+    (void)(v >= w);
 }
 template <class C>
 void op_iterate()
